@@ -47,11 +47,21 @@ FIELDS = {
     # _SetIteration
     "active": ("bool", None), "position": ("int", None),
     "useValues": ("bool", None),
+    # BTrees.check.Checker: len(self.errors), abstracted (the contract of
+    # `complain` says it grows by one)
+    "nerrors": ("int", None),
+    "_iter": ("ref", None),
 }
-GHOST_FIELDS = {"$changed": BOOL, "$cls": INT}
+KSET = z3.ArraySort(KS, BOOL)
+GHOST_FIELDS = {"$changed": BOOL, "$cls": INT,
+                # iterator objects (iter(x) / x.__iter__()): the sequence they
+                # walk, how many items they have yielded, whether they yield pairs
+                "$it_seq": INT, "$it_vals": INT, "$it_pos": INT, "$it_pairs": BOOL,
+                # ghost: the set of keys a K-list was built from by append
+                "$elems": KSET}
 
 CLASS_IDS = {"Bucket": 1, "Set": 2, "Tree": 3, "TreeSet": 4, "_TreeItem": 5,
-             "_SetIteration": 6, "_TreeItems": 7, "Length": 8}
+             "_SetIteration": 6, "_TreeItems": 7, "Length": 8, "Checker": 9}
 PERSISTENT = {"Bucket", "Set", "Tree", "TreeSet", "Length"}
 
 
@@ -186,9 +196,18 @@ class Engine:
             self.hset(st, "$changed", r, z3.BoolVal(False))
         return r
 
-    def new_list(self, st, elem, content, length):
+    def new_list(self, st, elem, content, length, elems=None):
         r = self.new_ref(st)
         self.lset(st, r, elem, content, length)
+        if elem == "K":
+            # ghost key set of the list: exact for lists grown by append from
+            # empty, unknown otherwise
+            e = elems
+            if e is None:
+                ln = z3.simplify(length)
+                e = z3.K(KS, z3.BoolVal(False)) if z3.is_int_value(ln) and ln.as_long() == 0 \
+                    else fresh("elems", KSET)
+            self.hset(st, "$elems", r, e)
         return SV("list", r, elem)
 
     def wrap(self, kind, z, x=None):
@@ -238,7 +257,7 @@ class Engine:
             if val.kind == "int":
                 return val.z != 0
         elif kind == "int":
-            if val.kind == "int":
+            if val.kind in ("int", "V"):
                 return val.z
             if val.kind == "bool":
                 return z3.If(val.z, 1, 0)
